@@ -27,7 +27,8 @@ struct elem {
     struct cstl_slist_node n2;
 };
 
-static struct cstl_slist lists[NL];
+/* list 2 is initialised by the header's compile-time initializer and never by cstl_slist_init */
+static struct cstl_slist lists[NL] = { [1] = CSTL_SLIST_INITIALIZER(lists[1], struct elem, n) };
 static struct elem pool[NE];
 static struct cstl_slist_node poisonv[NE];
 
@@ -101,6 +102,10 @@ static void reset(void)
     int i;
     memset(pool, 0, sizeof(pool));
     for (i = 0; i < NL; i++) {
+        if (i == 1) {
+            continue;       /* compile-time initializer */
+        }
+        H_POISON_OBJ(lists[i]);
         cstl_slist_init(&lists[i], i == 2 ? offsetof(struct elem, n2) : offsetof(struct elem, n));
     }
 }
